@@ -45,7 +45,7 @@ func (s concState) fresh(router string) *restful.Container {
 	return c
 }
 
-var concProbes = []string{"/a", "/a/x", "/a/dyn", "/b", "/b/x", "/b/dyn", "/c/7", "/c/7/x", "/d/x", "/zz", "/a/q", "/b/q"}
+var concProbes = []string{"/a", "/a/x", "/a/dyn", "/b", "/b/x", "/b/dyn", "/c/7", "/c/7/x", "/d/x", "/zz", "/a/q", "/b/q", "/c/7/g", "/c/7/g/x"}
 
 func applyConcOp(s concState, op []string) concState {
 	n := s.clone()
@@ -103,7 +103,8 @@ func hasRoute(x *regService, p string) bool {
 func randomConcOps(r *rand.Rand, init concState, n int) [][]string {
 	ops := [][]string{}
 	s := init
-	roots := []string{"/a", "/b", "/c/{x}", "/d"}
+	// "/c/{x}" and "/c/{x}/g" share the fixed part the ServeMux sees; a service on "/" takes every pattern over
+	roots := []string{"/a", "/b", "/c/{x}", "/d", "/a", "/b", "/c/{x}", "/d", "/c/{x}/g", "/c/{x}/g", "/"}
 	for len(ops) < n {
 		var op []string
 		root := pick(r, roots)
